@@ -290,9 +290,11 @@ class MetadataBase(object):
         :type f: file or str
         """
         self.validate()
+        # serialize first: nested sections are validated only while being
+        # serialized, and a failure must not truncate an existing file
+        parser = self._get_parser()
+        self.serialize(parser)
         with open_file_obj(f, "w") as f:
-            parser = self._get_parser()
-            self.serialize(parser)
             self.build_file(parser, f)
 
     def dumps(self):
